@@ -1,6 +1,7 @@
 package main
 
 import (
+	"go/token"
 	"fmt"
 	"go/ast"
 	"go/constant"
@@ -76,7 +77,35 @@ func opTables(u *Universe) (map[string]*opInfo, bool) {
 					continue
 				}
 				call, ok := kv.Value.(*ast.CallExpr)
-				if !ok || len(call.Args) != 3 {
+				if !ok {
+					continue
+				}
+				// a new helper that wraps "newBaseOperation(type, id, unmarshalBody(body, &T{}))": the &T{} it is given
+				if f := calleeOf(info, call); dec && f != nil && u.newFuncObjs[f] {
+					if hd, _ := u.Decl(f); hd != nil && hd.Body != nil {
+						wraps := 0
+						ast.Inspect(hd.Body, func(x ast.Node) bool {
+							if c2, isC := x.(*ast.CallExpr); isC {
+								if g := calleeOf(info, c2); g != nil && (oldObjName(g) == "newBaseOperation" || oldObjName(g) == "unmarshalBody") {
+									wraps++
+								}
+							}
+							return true
+						})
+						if wraps >= 2 {
+							for _, a := range call.Args {
+								if ue, isU := ast.Unparen(a).(*ast.UnaryExpr); isU && ue.Op == token.AND {
+									if btv, okT := info.Types[ue]; okT {
+										oi.decConsts = append(oi.decConsts, caseConsts...)
+										oi.decBody = typeStr(btv.Type)
+									}
+								}
+							}
+						}
+					}
+					continue
+				}
+				if len(call.Args) != 3 {
 					continue
 				}
 				if f := calleeOf(info, call); f == nil || oldObjName(f) != "newBaseOperation" {
@@ -318,6 +347,14 @@ func ruleR14_4(w *World, r *Report) {
 		got := ""
 		if len(sts) > 0 {
 			got = canonName(sts[0].Val)
+		}
+		if len(sts) == 0 && strings.HasPrefix(addr, "complit.OpID.") {
+			// the identifier part built by a new helper (newOpID(op.ID)): the helper's own literal, in the caller's terms
+			for _, st := range storesTo(nd, "complit."+strings.TrimPrefix(addr, "complit.OpID.")) {
+				if st.Parent() != nd {
+					got = canonName(st.Val)
+				}
+			}
 		}
 		r.Check(got == want, "NewOperationDoc/"+strings.TrimPrefix(addr, "complit."), u.Pos(nd.Pos()), got, "the stored "+addr+" is "+got+", expected "+want)
 	}
